@@ -315,6 +315,30 @@ def call(eng, ctx, cp, self_ty, trait, generics, args, env):
         a, b = deref(args[0]), deref(args[1])
         if isinstance(a, Sc) and isinstance(b, Sc):
             return OPT_SOME(int_cmp(a, b))
+    if tn == "PartialOrd" and m in ("lt", "le", "gt", "ge") and len(args) == 2:
+        # the provided comparison operators: defined through partial_cmp of the (dereferenced) operands
+        a, b = args
+        while isinstance(a, Ref) and isinstance(a.get(), Ref):
+            a, b = a.get(), b.get()
+        ia, ib = deref(a), deref(b)
+        if isinstance(ia, Sc) and isinstance(ib, Sc):
+            from interp import binop
+            return binop({"lt": "Lt", "le": "Le", "gt": "Gt", "ge": "Ge"}[m], ia, ib)
+        ety = self_ty
+        while ety is not None and ety.name in ("&", "&mut", "ref") and ety.args:
+            ety = ety.args[0]
+        if isinstance(ia, Adt) and ety is not None:
+            tyname = str(ety)
+            r = eng.dispatch(ctx, _cp("<%s as PartialOrd>::partial_cmp" % tyname), [a if isinstance(a, Ref) else Ref(Cell(a)),
+                                                                                   b if isinstance(b, Ref) else Ref(Cell(b))], {})
+            if r.variant == "None":
+                return mk_bool(False)
+            o = r.fields[0]
+            x = o.v if is_sym(o.v) else z3.BitVecVal(int(o.v), 8)
+            zero = z3.BitVecVal(0, 8)
+            c = {"lt": x < zero, "le": x <= zero, "gt": x > zero, "ge": x >= zero}[m]
+            c = z3.simplify(c)
+            return mk_bool(True if z3.is_true(c) else (False if z3.is_false(c) else c))
     if sn == "Ordering" and m == "then":
         a, b = args
         if not is_sym(a.v):
